@@ -1,13 +1,19 @@
-import Ixd
+import Ixd.GCPass
 open Ixd
 
-structure Case where
-  p : Policy := ⟨false, false, false, false⟩
-  blobs : List Blob := []
-  ms : List Desc := []
-  ks : List Desc := []
+/-! Driver of the repository-level GC profile: interprets the line protocol of
+    harness/inpkg/store/gc_harness_test.go (TestVerifGC) on the collector model.  `gcdriver mem|dir`. -/
 
-def n! (s : String) : Nat := s.toNat!
+structure St where
+  dirMode : Bool := false
+  started : Bool := false
+  p : Policy := ⟨false, false, false, false⟩
+  emptyRepo : Bool := false
+  r : DirRepo := {}            -- index and blobs live here for both stores
+  anyGC : Bool := false
+  fuzzy : Bool := false
+
+def n! (s : String) : Nat := s.toNat?.getD 0
 
 def parsePair (s : String) : Nat × Nat :=
   match s.splitOn ":" with
@@ -26,34 +32,115 @@ def sortN (l : List Nat) : List Nat := l.foldl (fun acc x => insertSortedN x acc
 def fmtEnt (d : Desc) : String :=
   s!"{d.dig}:{d.mt}:{if d.ann.isNil then 1 else 0}:{d.ann.tag}:{d.ann.subj}"
 
-def run (c : Case) : String :=
-  let ix : Index := { manifests := c.ms, children := c.ks }
-  let out := gc c.p ix c.blobs
-  let ents := sortS (out.index.manifests.map fmtEnt)
-  let univ := (List.range 9).filter (· ≠ 0)
-  let found := univ.filter fun g => (getDescDig out.index g).isSome
-  let blobs := sortN out.blobs
-  s!"I[{" ".intercalate ents}] F[{" ".intercalate (found.map toString)}] B[{" ".intercalate (blobs.map toString)}]"
+def orderDependent (ms : List Desc) : Bool :=
+  let subs := ms.filterMap (fun d => if !d.ann.isNil && d.ann.subj ≠ 0 then some d.ann.subj else none)
+  subs.length ≠ subs.eraseDups.length
 
-partial def loop (h : IO.FS.Stream) (out : IO.FS.Stream) (c : Case) : IO Unit := do
+def canon (s : St) (err : Bool) : String :=
+  let r := s.r
+  let ents := sortS (r.index.manifests.map fmtEnt)
+  let found := (List.range 10).filterMap fun g =>
+    if g = 0 then none else (getDescDig r.index g).map fun _ => s!"{g}"
+  let blobs := sortN (r.blobs.map (·.dig))
+  let base := s!"I[{" ".intercalate ents}] F[{" ".intercalate found}] B[{" ".intercalate (blobs.map toString)}]"
+  if !s.dirMode then base else
+    let fl := (if r.repoDir then ["repo"] else []) ++ (if r.repoDir && r.indexFile then ["index"] else [])
+      ++ (if r.repoDir && r.layoutFile then ["layout"] else []) ++ (if r.repoDir && r.uploadsDir then ["uploads"] else [])
+      ++ (if r.repoDir && r.blobsDir then ["blobs"] else [])
+      ++ (if r.repoDir && r.blobsDir then (sortN r.algos).map (fun a => s!"sha{a}") else [])
+    let upfiles := r.sessions + (if r.upLeft then 1 else 0)
+    let fl := fl ++ (if r.repoDir && r.uploadsDir && upfiles > 0 then [s!"upfiles={upfiles}"] else [])
+      ++ (if r.repoDir && r.blobsDir && r.strayBlobs then ["foreign"] else []) ++ (if r.repoDir && r.strayRoot then ["foreign"] else [])
+    let pers := if r.repoDir && r.indexFile && r.layoutFile then blobs else []
+    s!"{base} D[{" ".intercalate fl}] P[{" ".intercalate (pers.map toString)}] err={if err then 1 else 0}"
+
+def setBlob (bs : List Blob) (b : Blob) : List Blob := bs.filter (·.dig ≠ b.dig) ++ [b]
+
+def ensureInit (s : St) : St := if s.dirMode then { s with r := s.r.init } else s
+
+def addBlob (s : St) (b : Blob) : St :=
+  let s := ensureInit s
+  let r := s.r
+  let r := if s.dirMode then { r with blobsDir := true, algos := insertAlgo (algoOf b.dig) r.algos } else r
+  { s with r := { r with blobs := setBlob r.blobs b } }
+
+def step (s : St) (toks : List String) : St × String :=
+  match toks with
+  | ["NEW", u, d, w, g, e] =>
+    let r : DirRepo := if s.dirMode then ({} : DirRepo).init else {}
+    ({ dirMode := s.dirMode, started := true, p := ⟨u == "1", d == "1", w == "1", g == "1"⟩, emptyRepo := e == "1", r := r }, "ok")
+  | _ =>
+  if !s.started then (s, "bad-op") else
+  match toks with
+  | "B" :: dig :: recent :: kind :: rest =>
+    let g := n! dig
+    if g < 1 || g > 9 then (s, "bad-op") else
+    let rc := recent == "1"
+    match kind, rest with
+    | "raw", _ => (addBlob s { dig := g, json := false, recent := rc }, "ok")
+    | "oth", _ => (addBlob s { dig := g, recent := rc }, "ok")
+    | "img", cfg :: ls => (addBlob s { dig := g, cfg := n! cfg, layers := ls.map n!, recent := rc }, "ok")
+    | "idx", cs => (addBlob s { dig := g, kids := cs.map parsePair, recent := rc }, "ok")
+    | "poly", cfg :: nl :: more =>
+      let k := n! nl
+      if more.length < k then (s, "bad-op") else
+      (addBlob s { dig := g, cfg := n! cfg, layers := (more.take k).map n!, kids := (more.drop k).map parsePair, recent := rc }, "ok")
+    | _, _ => (s, "bad-op")
+  | ["M", dig, mt, nl, tag, subj] =>
+    let g := n! dig
+    let m := n! mt
+    if g < 1 || g > 9 || m > 5 then (s, "bad-op") else
+    let s := ensureInit s
+    let a : Ann := if nl != "0" then {} else Ann.mk false (n! tag) (n! subj) 0
+    let d : Desc := { dig := g, mt := m, size := 1, ann := a }
+    let r := s.r
+    let r := { r with index := { r.index with manifests := r.index.manifests ++ [d] } }
+    let r := if s.dirMode then { r with indexFile := true } else r
+    ({ s with r := r }, "ok")
+  | ["K", dig, mt] =>
+    if n! dig < 1 || n! dig > 9 || n! mt > 5 then (s, "bad-op") else
+    let r := s.r
+    ({ s with r := { r with index := { r.index with children := r.index.children ++ [{ dig := n! dig, mt := n! mt, size := 1 }] } } }, "ok")
+  | ["AGE"] =>
+    let r := s.r
+    ({ s with r := { r with blobs := r.blobs.map fun b => { b with recent := false } } }, "ok")
+  | ["UP"] =>
+    if !s.dirMode then (s, "ok") else
+    let s := ensureInit s
+    let r := s.r
+    ({ s with r := { r with uploadsDir := true, sessions := r.sessions + 1 } }, "ok")
+  | ["UPC"] =>
+    let r := s.r
+    ({ s with r := { r with sessions := 0 } }, "ok")
+  | ["X", what] =>
+    if what != "root" && what != "blobs" && what != "updir" && what != "upfile" then (s, "bad-op") else
+    if !s.dirMode then (s, "ok") else
+    let s := ensureInit s
+    let r := s.r
+    let r := match what with
+      | "root" => { r with strayRoot := true }
+      | "blobs" => { r with blobsDir := true, algos := insertAlgo 256 r.algos, strayBlobs := true }
+      | "updir" => { r with uploadsDir := true }
+      | _ => { r with uploadsDir := true, upLeft := true }
+    ({ s with r := r }, "ok")
+  | ["GC"] =>
+    let fuzzy := s.fuzzy || (s.anyGC && orderDependent s.r.index.manifests)
+    let (r', err) :=
+      if s.dirMode then dirGC s.p s.emptyRepo s.r
+      else
+        let m := (memGC s.p { index := s.r.index, blobs := s.r.blobs }).1
+        ({ s.r with index := m.index, blobs := m.blobs }, false)
+    let s' := { s with r := r', anyGC := true, fuzzy := fuzzy }
+    (s', (if fuzzy then "~ " else "") ++ canon s' err)
+  | _ => (s, "bad-op")
+
+partial def loop (h : IO.FS.Stream) (out : IO.FS.Stream) (s : St) : IO Unit := do
   let line ← h.getLine
   if line.isEmpty then return ()
-  match (line.trimAscii.toString.splitOn " ").filter (· ≠ "") with
-  | ["CASE", u, d, w, g] =>
-    loop h out { p := ⟨u == "1", d == "1", w == "1", g == "1"⟩ }
-  | "B" :: dig :: recent :: "raw" :: _ =>
-    loop h out { c with blobs := c.blobs ++ [⟨n! dig, .raw, recent == "1"⟩] }
-  | "B" :: dig :: recent :: "img" :: cfg :: ls =>
-    loop h out { c with blobs := c.blobs ++ [⟨n! dig, .img (n! cfg) (ls.map n!), recent == "1"⟩] }
-  | "B" :: dig :: recent :: "idx" :: cs =>
-    loop h out { c with blobs := c.blobs ++ [⟨n! dig, .idx (cs.map parsePair), recent == "1"⟩] }
-  | ["M", dig, mt, nl, tag, subj] =>
-    loop h out { c with ms := c.ms ++ [{ dig := n! dig, mt := n! mt, ann := { isNil := nl == "1", tag := n! tag, subj := n! subj } }] }
-  | ["K", dig, mt] =>
-    loop h out { c with ks := c.ks ++ [{ dig := n! dig, mt := n! mt }] }
-  | ["RUN"] =>
-    out.putStrLn (run c)
-    loop h out {}
-  | _ => out.putStrLn "bad-op"; loop h out c
+  let toks := (line.trimAscii.toString.splitOn " ").filter (· ≠ "")
+  let (s', ans) := step s toks
+  out.putStrLn ans
+  loop h out s'
 
-def main : IO Unit := do loop (← IO.getStdin) (← IO.getStdout) {}
+def main (args : List String) : IO Unit := do
+  loop (← IO.getStdin) (← IO.getStdout) { dirMode := args.head? == some "dir" }
